@@ -1,7 +1,12 @@
 #!/bin/sh
 # usage: seedtest.sh <patch.diff> <prop> [prop...]   -- apply to /repo, run checks, revert
+# The evidence directory is saved and restored: evidence written while /repo is mutated is never kept.
 patch=$1; shift
-cd /repo && git apply "$patch" || { echo "APPLY FAILED"; exit 3; }
+sav=/var/tmp/verif-evidence-save.$$
+rm -rf "$sav"; cp -a /verif/evidence "$sav"
+cd /repo && git apply "$patch" || { echo "APPLY FAILED"; rm -rf "$sav"; exit 3; }
 cd /verif
-for p in "$@"; do ./vcheck $p > /tmp/vt/seed.out 2>&1; rc=$?; echo "== $p exit=$rc"; grep -E 'VIOLATION|UNDECIDED|failed obligation|clause:|at    :' /tmp/vt/seed.out | head -12; done
+mkdir -p /var/tmp/vt
+for p in "$@"; do ./vcheck $p > /var/tmp/vt/seed.out 2>&1; rc=$?; echo "== $p exit=$rc"; grep -E 'VIOLATION|UNDECIDED|failed obligation|clause:|at    :' /var/tmp/vt/seed.out | head -12; done
 git -C /repo checkout -- .
+rm -rf /verif/evidence; mv "$sav" /verif/evidence
